@@ -39,6 +39,7 @@ type FuncFacts struct {
 	callOrd    map[*ssa.Call]int
 	callGroups map[string][]*ssa.Call
 	inOrdinal  map[*ssa.Call]bool
+	idiomBound map[*ssa.BinOp]Interval
 }
 
 // Atom is one condition that holds at a program point.
@@ -54,7 +55,7 @@ func (p *Program) Facts(fn *ssa.Function) *FuncFacts {
 	}
 	ff := &FuncFacts{P: p, Fn: fn, headerLoop: map[*ssa.BasicBlock]*Loop{}, innermost: map[*ssa.BasicBlock]*Loop{},
 		inductionPhi: map[*ssa.Phi]string{}, inductionAlias: map[*ssa.BinOp]string{}, terms: map[ssa.Value]string{},
-		reachCache: map[[2]*ssa.BasicBlock]map[*ssa.BasicBlock]bool{}, mustCache: map[*ssa.BasicBlock][]Atom{}}
+		reachCache: map[[2]*ssa.BasicBlock]map[*ssa.BasicBlock]bool{}, mustCache: map[*ssa.BasicBlock][]Atom{}, idiomBound: map[*ssa.BinOp]Interval{}}
 	ff.findLoops()
 	ff.findInduction()
 	p.facts[fn] = ff
